@@ -217,8 +217,23 @@ STARTS = [["new -"], ["new " + h(7, 0x41)], ["new " + h(8, 0x42)], ["new " + h(9
           ["newz 450045"], ["new " + h(5, 0x46), "set " + h(30, 0x47)], ["new " + h(12, 0x48), "set " + h(40, 0x49), "set " + h(3, 0x4a)]]
 
 
+def big_history(rng, n1):
+    """a string far beyond the lengths of the random histories (n1 bytes, then about twice as long): grown in place of a
+    separately allocated buffer, with and without a failing allocation - a failed set must leave the previous contents
+    (round-6 seed C11-10: a setter that releases a large old buffer before it has the new one)"""
+    a = rand_bytes(rng, n1)
+    b = rand_bytes(rng, 2 * n1 + rng.randrange(0, 9))
+    c = rand_bytes(rng, n1 + rng.randrange(1, 50))
+    lines = ["new " + hexs(rand_bytes(rng, rng.choice([0, 3, 40]))), "set " + hexs(a), "get",
+             "setfail " + hexs(c), "get", "eq " + hexs(a), "setfail " + hexs(b), "get", "copy", "set " + hexs(b), "get",
+             "setfail " + hexs(b + b"x"), "get", "set " + hexs(a[: n1 // 2]), "get", "del"]
+    return lines
+
+
 def gen(rng, tier):
     n = 2500 if tier == "quick" else 60000
+    for n1 in ([65535, 65536, 70001, 1 << 20] if tier == "quick" else [4096, 16384, 65535, 65536, 65537, 131072, 1 << 20, (1 << 20) + 1, 5 << 20]):
+        yield {"lines": big_history(rng, n1), "noshrink": True}
     for i in range(n):
         yield {"lines": gen_history(rng, rng.choice([2, 5, 10, 20, 40]))}
     depth = 2 if tier == "quick" else 3
